@@ -100,7 +100,12 @@ class Pool:
         shape = tuple(a.shape)
         r = rng.random() if same_scale is None else (0.1 if same_scale else 0.5)
         if hasattr(a, "qtype") and getattr(a, "axis", 0) is None and r < 0.4 and type(a).__name__ == "QBytesTensor":
-            return self.oq.quantize_activation(self.randn(shape, mag=float(a._scale.abs()) * 60), a.qtype,
+            qt = a.qtype
+            if rng.random() < 0.2:
+                # the same scale under another 8-bit qtype: codes of the two tensors do not share a grid
+                others = [q for q in ("qint8", "qfloat8_e4m3fn", "qfloat8_e5m2") if self.oq.qtypes[q].dtype != a.qtype.dtype]
+                qt = self.oq.qtypes[others[rng.integers(len(others))]]
+            return self.oq.quantize_activation(self.randn(shape, mag=float(a._scale.abs()) * 60), qt,
                                                a._scale.detach().clone())
         if r < 0.7:
             return self.fresh(shape, ["act8", "acte4", "acte5"][rng.integers(3)])[0]
